@@ -5,23 +5,26 @@ EXTENDS OpMachine, Json, IOUtils
 
 RW == INSTANCE RewriteImpl WITH RmulBug <- (IOEnv.OM_RMULBUG = "1")
 
-Profile == IOEnv.OM_PROFILE        \* "R" | "RW" | "C"
+Profile == IOEnv.OM_PROFILE        \* "R" | "RW" | "C" | "M" (complex space V next to its real space VR)
 Size    == IOEnv.OM_SIZE           \* "s" | "m" | "l"
 R(n)     == CInt(n)
 RQ(n, d) == CR(Q(n, d))
 Z(a, b)  == <<QI(a), QI(b)>>
-Cplx == Profile = "C"
+Mixed == Profile = "M"
+Cplx == Profile \in {"C", "M"}
 Small == Size \in {"s", "l"}      \* small alphabets: exhaustive quick runs and deep simulation
 
 MC_W == IF Profile = "RW" THEN <<Q(2, 1), Q(1, 2)>> ELSE <<QOne, QOne>>
 MC_Scal == IF Cplx THEN (IF Small THEN {R(0), R(2), Z(0, 1)} ELSE {R(0), R(1), R(2), Z(0, 1), Z(1, -1)})
            ELSE (IF Small THEN {R(0), R(2), R(-1)} ELSE {R(0), R(1), R(2), R(-1), RQ(1, 2)})
-MC_Vecs == IF Cplx THEN (IF Small THEN {<<Z(1, 1), R(2)>>} ELSE {<<Z(1, 1), R(2)>>, <<R(-1), Z(0, 2)>>})
+MC_Vecs == IF Mixed THEN {<<Z(1, 1), R(2)>>, <<R(3), R(-1)>>}       \* one complex and one real vector operand
+           ELSE IF Cplx THEN (IF Small THEN {<<Z(1, 1), R(2)>>} ELSE {<<Z(1, 1), R(2)>>, <<R(-1), Z(0, 2)>>})
            ELSE (IF Small THEN {<<R(3), R(-1)>>} ELSE {<<R(3), R(-1)>>, <<R(-2), RQ(1, 2)>>})
 MC_Mats == IF Cplx THEN {<<<<R(1), Z(0, 1)>>, <<R(0), R(2)>>>>}
            ELSE (IF Small THEN {<<<<R(1), R(2)>>, <<R(0), R(-1)>>>>}
                  ELSE {<<<<R(1), R(2)>>, <<R(0), R(-1)>>>>, <<<<R(0), R(-1)>>, <<R(1), R(0)>>>>})
-MC_LeafSet == IF Cplx THEN {"id", "scale", "mat", "mulvec", "zero", "inner", "sq", "const", "shift", "l2sq", "smul", "swap"}
+MC_LeafSet == IF Mixed THEN {"id", "scale", "mulvec", "sq", "shift", "cmod2", "sqr"}
+              ELSE IF Cplx THEN {"id", "scale", "mat", "mulvec", "zero", "inner", "sq", "const", "shift", "l2sq", "smul", "swap"}
               ELSE {"id", "scale", "mat", "mulvec", "zero", "inner", "sq", "const", "shift", "l2sq", "l1", "smul", "swap", "rpart", "linfn"}
 MC_UnSet == {"neg", "lscal", "rscal", "rdiv", "addscal", "lvec", "flvm", "rvec", "addvec", "raddvec", "rsubvec", "subvec", "pow"}
 MC_BinSet == {"sum", "sub", "comp"}
@@ -33,8 +36,10 @@ DPairsV == { <<x, d>> : x \in {<<R(1), R(2)>>}, d \in {<<R(1), R(-1)>>} }
 DPairsS == { <<x, d>> : x \in {<<R(2)>>}, d \in {<<R(3)>>} }
 SeqOf(S) == LET RECURSIVE F(_) F(T) == IF T = {} THEN <<>> ELSE LET x == CHOOSE x \in T : TRUE IN <<x>> \o F(T \ {x}) IN F(S)
 
+\* mixed fields: a complex space is also probed at a genuinely complex point
+MPts(s) == IF Mixed /\ s = "V" THEN Pts(s) \cup {<<Z(1, 1), Z(0, -2)>>} ELSE Pts(s)
 Line(e) ==
-  LET pts == SeqOf(Pts(Dom(e)))
+  LET pts == SeqOf(MPts(Dom(e)))
       lin == IsLinear(e)
       dg  == Deg(e)
       M   == IF lin THEN MatOf(e) ELSE <<>>
@@ -42,7 +47,7 @@ Line(e) ==
       \* reference adjoint from the matrix already computed: N = Gd^-1 M^H Gr
       N   == IF lin THEN [i \in 1..VecLenOf(Dom(e)) |-> [j \in 1..VecLenOf(Ran(e)) |->
                             CScal(QDiv(wr[j], wd[i]), CConj(M[j][i]))]] ELSE <<>>
-      dps == IF dg <= 4 /\ ~lin THEN SeqOf(IF Dom(e) = "V" THEN DPairsV ELSE DPairsS) ELSE <<>>
+      dps == IF dg <= 4 /\ ~lin THEN SeqOf(IF IsVecSp(Dom(e)) THEN DPairsV ELSE DPairsS) ELSE <<>>
   IN [prog |-> e, dom |-> Dom(e), ran |-> Ran(e), lin |-> lin, deg |-> dg,
       semlin |-> SemLin(e), supported |-> Supported(e),
       pts |-> pts, vals |-> [i \in 1..Len(pts) |-> Eval(e, pts[i])],
